@@ -108,7 +108,12 @@ Closed(S) ==
 \* refuses any argument, but a field with at least one declared argument silently ignores
 \* arguments it does not know, and input objects ignore unknown fields.  Accepts is calibrated
 \* against the real PrepareQuery on every record (SchemaMerge_Trace).
+\* a list literal has int and null elements; a null element needs a nullable element type
 ValidLeaf(l, ref, S) ==
+  IF l.k = "list"
+  THEN /\ Len(ref.nn) = 2 /\ ref.kind = "SCALAR" /\ ref.name = "int64"
+       /\ \A i \in DOMAIN l.elems : l.elems[i].k = "int" \/ (l.elems[i].k = "null" /\ ~ref.nn[2])
+  ELSE
   /\ Len(ref.nn) = 1
   /\ CASE l.k = "int" -> ref.kind = "SCALAR" /\ ref.name = "int64"
        [] l.k = "str" -> ref.kind = "SCALAR" /\ ref.name = "string"
